@@ -608,7 +608,7 @@ func stress(c *fw.Ctx, idx int, r *fw.Rand) {
 	var wg sync.WaitGroup
 	start := make(chan struct{})
 	clients := make([]*client, nclients)
-	ok, dump := c.Within(120*time.Second, func() {
+	ok, dump := c.Within(40*time.Second, func() {
 		for ci := 0; ci < nclients; ci++ {
 			wg.Add(1)
 			go func(ci int) {
@@ -744,7 +744,7 @@ func storm(c *fw.Ctx, idx int, r *fw.Rand) {
 	}
 	var wg sync.WaitGroup
 	start := make(chan struct{})
-	ok, dump := c.Within(120*time.Second, func() {
+	ok, dump := c.Within(40*time.Second, func() {
 		for w := 0; w < nwriters; w++ {
 			wg.Add(1)
 			go func(w int) {
